@@ -190,6 +190,15 @@ def _account(ctx, chunks, plan_by_seed):
                     worst["oracle"] = max(worst["oracle"], e["err"])
     if ncase == 0:
         raise InfraError("c02 harness produced no cases")
+    cs = [_case_of(b) for ev in chunks for b in tlc.split_blocks(ev)]
+    classes = dict(two_or_more_compared=sum(1 for c, s2 in cs if c and _ncmp(s2) >= 2), small_eigenvalues=sum(1 for c, s2 in cs if c and c["dec"] <= -2),
+                   rotated=sum(1 for ev in chunks for e in ev if e["e"] == "Pair" and e["kind"] == "rot"), shrunk=sum(1 for ev in chunks for e in ev if e["e"] == "Scale" and e["cexp"] < 0))
+    for sc in range(-1, 6):
+        classes["scaling_%d" % sc] = sum(1 for c, s2 in cs if c and c["scaling"] == sc)
+    ctx.steps["classes"] = classes
+    missing = [k for k, v in classes.items() if v == 0]
+    if missing:
+        raise InfraError("c02 recording does not exercise: %s (vacuous antecedents)" % missing)
     ctx.steps["worst_observed_over_bound"] = {k: (round(v, 4) if isinstance(v, float) else v) for k, v in worst.items()}
     ctx.steps["worst_cases"] = wcase
     ctx.steps["cases"] = dict(run=ncase, dropped_outside_quantifier=ndrop)
